@@ -1,6 +1,5 @@
 SPECIFICATION Spec
 CONSTANTS
-  NOut = 4
+  MaxOut = 4
   Tools = {"go", "ts", "psql"}
-  FormatOf <- F4
-INVARIANTS FormatAfterWrite DoneMeansAllFormatted NoDoneAfterFailure CrashOnlyOnFailure ProbeAtMostOnce Mutex CacheTruthful
+INVARIANTS FormatAfterWrite DoneMeansAllFormatted NoDoneAfterFailure CrashOnlyOnFailure ProbeAtMostOnce Mutex CacheTruthful ProbeOnlyNeeded
